@@ -34,6 +34,7 @@ type Obligation struct {
 	File    string
 	Canary  bool
 	Uses    map[string]bool
+	Safety  bool   // absence-of-panic obligation (counts only for properties that claim totality)
 	Clause  string // name of the contract clause the goal comes from
 	Variant string
 	// concrete failing input found by an engine that evaluates rather than proves
@@ -72,6 +73,9 @@ type FnExec struct {
 	props   []string // properties of all clauses of this function (for safety obligations)
 	unsupported []string
 	frameN  int
+	merge        bool
+	pending      map[string]*pendingJoin
+	pendingOrder []string
 }
 
 type unsupportedErr struct{ msg string }
@@ -279,6 +283,11 @@ func (fx *FnExec) run() {
 			fx.inputs = append(fx.inputs, InputTerm{fmt.Sprintf("tape+%d", k), fmt.Sprintf("(select %s (+ %s %d))", tape, pos, k)})
 		}
 	}
+	if fx.fc != nil {
+		for _, g := range fx.fc.Ghosts {
+			st.ghost["fg:"+fx.fc.Key+":"+g] = eng.fresh(st, "ghost_"+g, "(Array Int Int)")
+		}
+	}
 	fx.entry = st.fork()
 	if fx.fc != nil {
 		env := fx.envFor(st, fx.fn, nil)
@@ -294,7 +303,9 @@ func (fx *FnExec) run() {
 	}
 	// vacuity: the precondition must be satisfiable
 	fx.emit(st, &Obligation{Kind: "vacuity", Name: "requires-sat", Goal: "false", Canary: true})
+	fx.pending = map[string]*pendingJoin{}
 	fx.runFunc(st, fx.fn, args, func(s *State, res []Val) { fx.checkPost(s, res) }, 0)
+	fx.drainJoins()
 }
 
 func (fx *FnExec) safeTr(env *Env, c *Clause) (f string, err error) {
@@ -321,7 +332,7 @@ func (fx *FnExec) bindFail(c *Clause, err error) {
 
 // envFor builds the translation environment for clauses of fn's contract at state st.
 func (fx *FnExec) envFor(st *State, fn *ssa.Function, results []Val) *Env {
-	env := &Env{fx: fx, cur: st, old: fx.entry, vars: map[string]Val{}}
+	env := &Env{fx: fx, cur: st, old: fx.entry, vars: map[string]Val{}, fc: fx.eng.contractOf(fn)}
 	if fn.Pkg != nil {
 		env.pkg = fn.Pkg.Pkg
 	} else if fn.Parent() != nil && fn.Parent().Pkg != nil {
@@ -400,7 +411,7 @@ func (fx *FnExec) safety(st *State, kind, name, goal string) {
 	if goal == "true" {
 		return
 	}
-	fx.emit(st, &Obligation{Kind: kind, Name: name, Goal: goal})
+	fx.emit(st, &Obligation{Kind: kind, Name: name, Goal: goal, Safety: kind != "subset"})
 	st.assume(goal) // continue on the safe side only
 }
 
@@ -418,7 +429,14 @@ func (fx *FnExec) runFunc(st *State, fn *ssa.Function, args []Val, k cont, depth
 	for i, p := range fn.Params {
 		st.vals[p] = args[i]
 	}
-	fx.execBlock(st, fn.Blocks[0], nil, k, depth)
+	callerFrame, callerDepth := st.frameID, st.frameDepth
+	fx.frameN++
+	st.frameID, st.frameDepth = fx.frameN, callerDepth+1
+	k2 := func(s *State, res []Val) {
+		s.frameID, s.frameDepth = callerFrame, callerDepth
+		k(s, res)
+	}
+	fx.execBlock(st, fn.Blocks[0], nil, k2, depth)
 }
 
 func (fx *FnExec) val(st *State, v ssa.Value) Val {
@@ -512,10 +530,12 @@ func (fx *FnExec) execBlock(st *State, b *ssa.BasicBlock, pred *ssa.BasicBlock, 
 	if lp := fx.headerLoop(b); lp != nil {
 		if _, on := st.active[lp]; on && pred != nil && lp.blocks[pred] {
 			fx.evalPhis(st, b, pred)
+			fx.ghostUpdates(st, lp)
 			fx.checkInvariants(st, lp, "inv-preserve")
 			return
 		}
 		fx.evalPhis(st, b, pred)
+		fx.ghostUpdates(st, lp)
 		fx.checkInvariants(st, lp, "inv-init")
 		ctx := &LoopCtx{loop: lp, entry: st.fork()}
 		fx.havocLoop(st, lp)
@@ -524,6 +544,10 @@ func (fx *FnExec) execBlock(st *State, b *ssa.BasicBlock, pred *ssa.BasicBlock, 
 		fx.emit(st, &Obligation{Kind: "vacuity", Name: fmt.Sprintf("loop%d-invariant-sat", lp.ordinal), Goal: "false", Canary: true})
 	} else {
 		fx.evalPhis(st, b, pred)
+		if fx.merge && len(b.Preds) >= 2 {
+			fx.arriveAtJoin(st, b, k, depth)
+			return
+		}
 	}
 	fx.execFrom(st, b, 0, k, depth)
 }
@@ -611,7 +635,7 @@ func (fx *FnExec) panicPath(st *State, why string, in ssa.Instruction) {
 	pos := fx.eng.fset.Position(in.Pos())
 	name := fmt.Sprintf("%s@%s", why, fx.siteName(in))
 	_ = pos
-	fx.emit(st, &Obligation{Kind: "panic", Name: name, Props: props, Goal: or(conds...)})
+	fx.emit(st, &Obligation{Kind: "panic", Name: name, Props: props, Goal: or(conds...), Safety: true})
 }
 
 // siteName gives a stable-ish name for an instruction: function-relative ordinal of its kind.
@@ -926,6 +950,40 @@ func rangeBound(lp *Loop, ph *ssa.Phi) ssa.Value {
 	return nil
 }
 
+// ghostUpdates executes the "loop k ghost G[idx] = val" clauses when the body of loop k is entered.
+func (fx *FnExec) ghostUpdates(st *State, lp *Loop) {
+	fc := fx.eng.contractOf(lp.fn)
+	if fc == nil || lp.fn != fx.fn {
+		return
+	}
+	env := fx.loopEnv(st, lp)
+	for _, gu := range fc.GhostUpd {
+		if gu.Loop != lp.ordinal {
+			continue
+		}
+		key := "fg:" + fc.Key + ":" + gu.Name
+		cur, ok := st.ghost[key]
+		if !ok {
+			fx.unsupp("ghost update of undeclared ghost %s", gu.Name)
+		}
+		var iv, vv Val
+		func() {
+			defer func() {
+				if r := recover(); r != nil {
+					if te, ok := r.(trErr); ok {
+						fx.unsupp("ghost update %s: %s", gu.Name, te.msg)
+					}
+					panic(r)
+				}
+			}()
+			iv, vv = env.tr(gu.Idx), env.tr(gu.Val)
+		}()
+		n := fx.eng.fresh(st, "ghost_"+gu.Name, "(Array Int Int)")
+		st.assume("(= " + n + " " + store(cur, iv.T, vv.T) + ")")
+		st.ghost[key] = n
+	}
+}
+
 // havocLoop forgets everything the loop may change.
 func (fx *FnExec) havocLoop(st *State, lp *Loop) {
 	eng := fx.eng
@@ -963,6 +1021,11 @@ func (fx *FnExec) havocLoop(st *State, lp *Loop) {
 		names = append(names, c)
 	}
 	sort.Strings(names)
+	dirty := map[string]bool{}
+	for b := range lp.blocks {
+		eng.dirtyBlock(b, func(x *ssa.BasicBlock) bool { return lp.blocks[x] }, dirty)
+	}
+	allocBefore := st.alloc
 	if touch["@alloc"] {
 		na := eng.fresh(st, "alloc", SInt)
 		st.assume("(>= " + na + " " + st.alloc + ")")
@@ -977,7 +1040,13 @@ func (fx *FnExec) havocLoop(st *State, lp *Loop) {
 			st.ghost[g] = eng.fresh(st, "g_"+g, eng.ghosts[g])
 		default:
 			if _, ok := eng.compSort[c]; ok {
-				eng.heapHavoc(st, c)
+				old := eng.heapGet(st, c)
+				n := eng.heapHavoc(st, c)
+				if !dirty[c] {
+					// the loop only adds new objects to this component: everything allocated before is unchanged
+					p := eng.freshName("p")
+					st.assume("(forall ((" + p + " Int)) (! (=> (<= " + p + " " + allocBefore + ") (= (select " + n + " " + p + ") (select " + old + " " + p + "))) :pattern ((select " + n + " " + p + "))))")
+				}
 			}
 		}
 	}
@@ -990,6 +1059,19 @@ func (fx *FnExec) havocLoop(st *State, lp *Loop) {
 	for _, in := range lp.header.Instrs {
 		if ph, ok := in.(*ssa.Phi); ok {
 			st.assume(fx.allocatedInv(st, st.vals[ph]))
+		}
+	}
+	if fc := eng.contractOf(lp.fn); fc != nil && lp.fn == fx.fn {
+		for _, gu := range fc.GhostUpd {
+			inner := false
+			for _, l2 := range fx.loopsOf(lp.fn) {
+				if l2.ordinal == gu.Loop && lp.blocks[l2.header] {
+					inner = true
+				}
+			}
+			if inner {
+				st.ghost["fg:"+fc.Key+":"+gu.Name] = eng.fresh(st, "ghost_"+gu.Name, "(Array Int Int)")
+			}
 		}
 	}
 	if lp.enumKey != "" {
